@@ -143,6 +143,11 @@ class Hung(Exception):
     pass
 
 
+class DaemonDied(Exception):
+    """something that is not an RPCError (SystemExit included) left an RPC method or the main loop:
+    a real supervisord would have exited or answered HTTP 500"""
+
+
 class UpdateRun(object):
     def __init__(self, wd, scenario, rng=None):
         self.wd = wd
@@ -293,6 +298,11 @@ class UpdateRun(object):
         except RPCError as e:
             self.log.append((method, list(args), ('fault', e.code)))
             raise xmlrpclib.Fault(e.code, e.text)
+        except (Hung, DaemonDied):
+            raise
+        except BaseException as e:       # SystemExit, KeyboardInterrupt, anything: judged, never propagated
+            self.log.append((method, list(args), ('died', type(e).__name__, str(e)[:300])))
+            raise DaemonDied('%s(%s) out of %s' % (type(e).__name__, str(e)[:200], method))
         v = xmlrpclib.loads(xmlrpclib.dumps((v,), methodresponse=True, allow_none=False))[0][0]
         self.log.append((method, list(args), ('value', v)))
         if method == 'reloadConfig':
@@ -343,6 +353,10 @@ class UpdateRun(object):
             return ('fault', e.faultCode)
         except Hung as e:
             return ('hung', str(e))
+        except DaemonDied as e:
+            return ('died', str(e))
+        except BaseException as e:
+            return ('died', '%s(%s) out of do_update' % (type(e).__name__, str(e)[:200]))
         return ('done', None)
 
     def close(self):
